@@ -31,6 +31,8 @@ const basePreamble = `(set-option :produce-models true)
 (declare-const iface_nil Iface)
 (declare-fun typeof (Iface) Int)
 (assert (= (typeof iface_nil) 0))
+(declare-fun fresh_err (Iface) Bool)
+(assert (not (fresh_err iface_nil)))
 (declare-sort Func 0)
 (declare-const func_nil Func)
 (define-sort F64 () (_ FloatingPoint 11 53))
